@@ -689,6 +689,18 @@ func (w *W) harnessAPI(f *frame, fn *ssa.Function, args []Value, key int, g *Ter
 		}
 		// ge_k false => all higher ge false is not required: the tree picks the largest k whose flag is set
 		if _, ok := w.nondetPos[name]; !ok {
+			if splitMode {
+				// one option per value k: ge_k set, every higher flag clear, lower flags clear (irrelevant)
+				var c splitChoice
+				for k := int64(lo.val); k <= int64(hi.val); k++ {
+					o := map[string]*Term{}
+					for j := int64(lo.val) + 1; j <= int64(hi.val); j++ {
+						o[fmt.Sprintf("%s_ge%d", name, j)] = Bool(j == k)
+					}
+					c.opts = append(c.opts, o)
+				}
+				splitChoices = append(splitChoices, c)
+			}
 			w.nondetPos[name] = w.pos(pos)
 			w.nondets = append(w.nondets, v)
 			w.nondetNames[v.id] = name
